@@ -133,13 +133,27 @@ class C13World(object):
         if rng.random() < 0.25:
             # sibling inputs of an ordered ListGrader become dependent variables as well
             events.append({'op': 'sib', 'case': rng.randrange(4), 'subseed': rng.getrandbits(31),
-                           'samples': rng.choice([1, 2, 4]), 'order': rng.random() < 0.5})
+                           'samples': rng.choice([1, 2, 4]), 'order': rng.random() < 0.5,
+                           'variant': rng.choice([0, 0, 1, 2, 3])})
         uconst = {}
+        nbase = 'a'
         if rng.random() < 0.35:
             uconst['c0'] = rng.choice([2.5, -1.25, 10])
             if rng.random() < 0.5:
                 uconst['pi'] = 3.0            # the author overrides a default constant
-        return {'world': 'c13', 'uconst': uconst, 'ind': ind, 'numbered': numbered, 'vector': vector, 'deps': deps,
+            if numbered and collide is None and rng.random() < 0.4:
+                # the numbered-variable base name is also the name of a (user) constant: the
+                # instances c0_{n} are sampled, the plain name c0 stays the constant
+                nbase = 'c0'
+                ren = lambda nm: 'c0' + nm[1:] if nm.startswith('a_{') else nm   # noqa: E731
+                numbered = [ren(nm) for nm in numbered]
+                for d in deps:
+                    d['ops'] = [ren(o) for o in d['ops']]
+                for e in events:
+                    if 'order' in e and isinstance(e['order'], list):
+                        e['order'] = [ren(x) for x in e['order']]
+                        e['sf_order'] = [ren(x) for x in e['sf_order']]
+        return {'world': 'c13', 'uconst': uconst, 'nbase': nbase, 'ind': ind, 'numbered': numbered, 'vector': vector, 'deps': deps,
                 'bad': bad, 'samples': samples, 'shadow_e': shadow_e, 'events': events, 'collide': collide,
                 'two_answers': rng.random() < 0.15, 'fault_free': bad is None}
 
@@ -211,11 +225,12 @@ class Run(object):
         cfg = {'variables': [n for n in ev['order'] if n in built], 'sample_from': sf,
                'samples': j['samples'], 'user_functions': ufs}
         if j['numbered']:
-            cfg['numbered_vars'] = ['a']
+            nbase = j.get('nbase', 'a')
+            cfg['numbered_vars'] = [nbase]
             s = SimSampler(name='smp.a', values=[round(7.0 + 0.031 * t, 6) for t in range(64)],
                            mode=ev['rng'], lo=7.0, hi=8.0)
             s.env = self.env
-            sf['a'] = s
+            sf[nbase] = s
         if j.get('uconst'):
             cfg['user_constants'] = dict(j['uconst'])
             if 'pi' in j['uconst']:
@@ -288,7 +303,10 @@ class Run(object):
         if ev.get('bad_instance'):
             # not a numbered instance (leading zeros, sign, case ...): must be an undefined variable
             seams.seed_lib(ev['subseed'])
-            ob = outcome(g, None, student + ' + 0*' + ev['bad_instance'])
+            bad_name = ev['bad_instance']
+            if j.get('nbase', 'a') != 'a':
+                bad_name = bad_name.replace('a_', 'c0_').replace('A_', 'C0_')
+            ob = outcome(g, None, student + ' + 0*' + bad_name)
             self.bump(self.probes, 'malformed numbered instance submitted')
             if not (ob['k'] == 'exc' and ob['fam'] == 'student'):
                 self.violate('numbered', i, 'input mentioning %s gave %s ; only a_{<integer without leading zeros>} '
@@ -421,10 +439,33 @@ class Run(object):
         self.rec.clear()
         smp = SimSampler(name='smp.x', values=[round(1.3 + 0.41 * t, 6) for t in range(16)])
         smp.env = self.env
-        sub = m.FormulaGrader(variables=['x'], sample_from={'x': smp}, samples=n,
-                              user_functions={'probe': self.make_probe('probe', len(sibs) + 1),
-                                              'probe2': self.make_probe('probe2', 2)})
-        g = m.ListGrader(answers=answers, subgraders=sub, ordered=True)
+
+        def fg(nprobe):
+            return m.FormulaGrader(variables=['x'], sample_from={'x': smp}, samples=n,
+                                   user_functions={'probe': self.make_probe('probe', nprobe),
+                                                   'probe2': self.make_probe('probe2', 2)})
+        sub = fg(len(sibs) + 1)
+        variant = ev.get('variant', 0)
+        if variant == 1:
+            # a subgrader list with a non-formula grader first: sibling_k still counts inputs
+            answers, inputs = ['cat', 'probe(sibling_3, x) + sibling_3 + 1', 'x^2'], ['cat', 'x^2 + 1', 'x^2']
+            sibs = {'sibling_3': lambda x: x * x}
+            g = m.ListGrader(answers=answers, subgraders=[m.StringGrader(), fg(2), fg(2)], ordered=True)
+        elif variant == 2:
+            # grouping: sibling_k is the k-th GROUP (here group 3 is the last box), not the k-th box
+            answers = ['probe(sibling_3, x) + sibling_3', ['x', 'x+1'], 'x^3']
+            inputs = ['x^3', 'x', 'x+1', 'x^3']
+            sibs = {'sibling_3': lambda x: x ** 3}
+            inner = m.ListGrader(subgraders=fg(2), ordered=True)
+            g = m.ListGrader(answers=answers, subgraders=[fg(2), inner, fg(2)], ordered=True, grouping=[1, 2, 2, 3])
+        elif variant == 3:
+            answers = [['x', '2*x'], 'probe(sibling_1, x)*0 + x^2'] if False else ['x^2', ['x', '2*x'], 'probe(sibling_1, x) + sibling_1 - 1']
+            inputs = ['x', '2*x', 'x^2', 'x^2 - 1'] if False else ['x^2', 'x', '2*x', 'x^2 - 1']
+            sibs = {'sibling_1': lambda x: x * x}
+            inner = m.ListGrader(subgraders=fg(2), ordered=True)
+            g = m.ListGrader(answers=answers, subgraders=[fg(2), inner, fg(2)], ordered=True, grouping=[1, 2, 2, 3])
+        else:
+            g = m.ListGrader(answers=answers, subgraders=sub, ordered=True)
         self.env.begin(ev)
         seams.seed_lib(ev['subseed'])
         o = outcome(g, None, list(inputs))
@@ -459,7 +500,7 @@ class Run(object):
             if ev['op'] == 'sib':
                 o = self.do_sib(i, ev)
                 log.append([i, core.jdigest(o)])
-                sig.append(['sib', ev['case'], o.get('cls', 'ret')])
+                sig.append(['sib', ev['case'], ev.get('variant'), o.get('cls', 'ret')])
                 continue
             o = self.do_grade(i, ev)
             log.append([i, core.jdigest(o)])
